@@ -31,8 +31,8 @@ static unsigned char model[DEVBYTES];
 static io_channel ch;
 static long stamp;
 
-enum { K_R, K_W, K_WB, K_Z, K_D, K_RA, K_BS, K_F, K_CR, K_N };
-static const char *kn[] = { "read_blk64", "write_blk64", "write_byte", "zeroout", "discard", "readahead", "set_blksize", "flush", "close_reopen" };
+enum { K_R, K_W, K_WB, K_Z, K_D, K_RA, K_BS, K_F, K_CR, K_OFF, K_ON, K_N };
+static const char *kn[] = { "read_blk64", "write_blk64", "write_byte", "zeroout", "discard", "readahead", "set_blksize", "flush", "close_reopen", "set_option_cache_off", "set_option_cache_on" };
 struct op { int k; long a, b; int probe; };
 static struct op ops[400]; static int nops;
 static void addop(int k, long a, long b, int probe) { ops[nops].k = k; ops[nops].a = a; ops[nops].b = b; ops[nops].probe = probe; nops++; }
@@ -61,6 +61,7 @@ static void gen_ops(void)
 	addop(K_BS, 0, 0, 0);
 	addop(K_F, 0, 0, 1);
 	addop(K_CR, 0, 0, 1);
+	if (!strcmp(mode, "cached")) { addop(K_OFF, 0, 0, 0); addop(K_ON, 0, 0, 0); }	/* the cache switched off and on in mid-history (rw_bitmaps does this around its threads) */
 }
 
 static char vmsg[400];
@@ -157,6 +158,10 @@ static int apply(const struct op *o, int check, int *err)
 			snprintf(vmsg, sizeof vmsg, "after flush the backing file differs from the written data at byte %ld", i); return 1;
 		}
 		if (check && f->dirty_since_fsync) { snprintf(vmsg, sizeof vmsg, "flush returned without an fsync after the last device write"); return 1; }
+		return 0;
+	case K_OFF: case K_ON:
+		rc = io_channel_set_options(ch, o->k == K_OFF ? "cache=off" : "cache=on");
+		if (rc) { *err = 1; if (check) { snprintf(vmsg, sizeof vmsg, "set_options returned error %ld", (long) rc); return 1; } }
 		return 0;
 	case K_CR: {
 		long bsz = ch->block_size;
